@@ -93,6 +93,15 @@ def build_schema(spec, coerce_off=()):
             ix = spec["index"]
             index = pa.Index(_pd_dtype(ix["dt"]), checks=[_check(k, be) for k in ix.get("checks", [])],
                              coerce=ix.get("coerce", False) and "index" not in coerce_off, name=ix.get("name"))
+        if spec.get("entry") in ("series", "index") and spec.get("index"):
+            ix = spec["index"]
+            index = pa.Index(_pd_dtype(ix["dt"]), checks=[_check(k, be) for k in ix.get("checks", [])],
+                             coerce=ix.get("coerce", False) and "index" not in coerce_off, name=ix.get("name"))
+            if spec["entry"] == "index":  # the component itself validates the frames
+                return index
+            c = spec["cols"][0]
+            return pa.SeriesSchema(_pd_dtype(c["dt"]), checks=[_check(k, be) for k in c.get("checks", [])],
+                                   nullable=c.get("nullable", False), coerce=c.get("coerce", False), index=index, name=c["n"])
         if spec.get("mindex"):
             mi = spec["mindex"]
             index = pa.MultiIndex([pa.Index(_pd_dtype(l["dt"]), checks=[_check(k, be) for k in l.get("checks", [])],
@@ -174,6 +183,11 @@ def build_data(call):
         df = pd.DataFrame({k: (pd.Series(list(v), dtype=object) if k in obj_cols else list(v)) for k, v in d["cols"].items()})
         if d.get("index") is not None:
             df.index = pd.Index(list(d["index"]))
+        if d.get("series"):  # the first column as a Series (SeriesSchema entry)
+            k0 = next(iter(d["cols"]))
+            s_ = df[k0]
+            s_.name = k0
+            return s_
         if d.get("mindex") is not None:  # {"arrays": [[...], ...], "names": [...]} (names may repeat / be None)
             df.index = pd.MultiIndex.from_arrays([list(a) for a in d["mindex"]["arrays"]], names=list(d["mindex"]["names"]))
         return df
